@@ -334,7 +334,13 @@ func (x *Unit) readPath(st *State, v Val, path []int) Val {
 	if av, ok := x.atomicView(st, lv); ok {
 		return x.readLV(st, av)
 	}
-	return x.readLV(st, lv)
+	r := x.readLV(st, lv)
+	// state-independent typing facts of the value read (sound by Go's type system)
+	if ct, ok := under(r.Typ).(*types.Chan); ok && x.binders == 0 {
+		x.u.DeclFun("chantype", "(Int) Int")
+		x.fact(Or(Eq(r.T, IntLit(0)), Eq(App(SInt, "chantype", r.T), IntLit(int64(x.u.TypeID(ct.Elem()))))))
+	}
+	return r
 }
 
 // atomicView: a field of an atomic type is seen in contracts as the value of its cell.
@@ -416,6 +422,23 @@ func (x *Unit) spCall(st *State, e *ast.CallExpr, c *specCtx) Val {
 			return arg(0)
 		}
 		return x.sp(c.old, e.Args[0], c)
+	case "iter":
+		if x.iterState == nil {
+			x.specErr(e, "iter() is only available in 'loop K step' clauses")
+			return arg(0)
+		}
+		return x.sp(x.iterState, e.Args[0], c)
+	case "sendready":
+		ch, t := arg(0), arg(1)
+		return Val{x.uf("chan_sendready", SBool, ch.T, t.T), boolT}
+	case "parent":
+		return Val{x.uf("ctxparent", SIface, arg(0).T), arg(0).Typ}
+	case "sent":
+		g := x.ghostGet(st, "chanSent")
+		return Val{Select(x.u.MapVal(g.T), arg(0).T), intT}
+	case "closed":
+		g := x.ghostGet(st, "chanClosed")
+		return Val{Select(x.u.MapVal(g.T), arg(0).T), boolT}
 	case "imp":
 		return Val{Imp(arg(0).T, arg(1).T), boolT}
 	case "iff":
